@@ -102,12 +102,15 @@ var whitelist = []FuncSpec{
 	{"pkg/provider", "Provider", "GetMetadata"},
 	{"pkg/provider", "Provider", "metadataHandle"},
 	{"pkg/provider/serviceprovider", "ServiceProvider", "ValidateRedirectSignature"},
+	{"pkg/provider/xml", "", "DecodeAuthNRequest"},
+	{"pkg/provider/xml", "", "DecodeLogoutRequest"},
 }
 
 // standaloneOnly: translated for theorems of their own; callers keep consulting the (legacy) oracle of the same name, so
 // that the definitions and proofs about the callers stay as they are (the link is a hypothesis of the theorems that
 // combine them: the oracle's answers are the generated function's)
-var standaloneOnly = map[string]bool{"pkg/provider/serviceprovider.ServiceProvider.ValidateRedirectSignature": true}
+var standaloneOnly = map[string]bool{"pkg/provider/serviceprovider.ServiceProvider.ValidateRedirectSignature": true,
+	"pkg/provider/xml.DecodeAuthNRequest": true, "pkg/provider/xml.DecodeLogoutRequest": true}
 
 // extraFields are struct fields the hand-written handler models read although no translated function does.
 var extraFields = map[string][]string{
@@ -1549,6 +1552,21 @@ func (c *tctx) writeBackCall(e ast.Expr) (v val, nres int, wb []string, ok bool)
 		return c.callExpr(x, true), len(callee.resTypes), wb, true
 	}
 	if sel, isSel := x.Fun.(*ast.SelectorExpr); isSel {
+		// xml.Unmarshal(data, v): the decoder fills the struct behind v - the oracle answers with the error and the filled value
+		if id, isId := sel.X.(*ast.Ident); isId && sel.Sel.Name == "Unmarshal" && len(x.Args) == 2 {
+			if pn, isPkg := c.info.Uses[id].(*types.PkgName); isPkg && pn.Imported().Path() == "encoding/xml" {
+				data := c.expr(x.Args[0])
+				target := localOf(x.Args[1])
+				tt := c.info.TypeOf(x.Args[1])
+				ns := namedStruct(tt)
+				if ns == nil || !isPointer(tt) {
+					panic("xml.Unmarshal into something other than a pointer to a struct")
+				}
+				lt := c.w.leanType(tt.(*types.Pointer).Elem())
+				o := c.oracle("f_Unmarshal_"+ns.Obj().Name(), "Lib.Bytes → Err × "+lt, "encoding/xml.Unmarshal(data, *"+ns.Obj().Name()+"): the error and the filled value (the pointer itself cannot be changed by the decoder)")
+				return val{e: fmt.Sprintf("(let r_ := %s %s; (r_.1, some r_.2))", o, data.e), g: data.g}, 1, []string{target}, true
+			}
+		}
 		if idx, has := outParamMethods[sel.Sel.Name]; has {
 			if s := c.info.Selections[sel]; s != nil && s.Kind() == types.MethodVal {
 				sig := s.Obj().Type().(*types.Signature)
